@@ -58,6 +58,16 @@ class Prop:
     def nontrivial(self, case, impl):
         return "ERR" not in impl
 
+    def scenarios(self, rng, tier):
+        """Scenario-style exploration that does not fit the line protocol. Returns a dict
+        {evaluations, nontrivial, spec_fail: [(key, text, detail)], corr_fail: [(text, impl, model)],
+         dist: {...}, samples: [...]} or None."""
+        return None
+
+    def pre_build(self):
+        """Extra builds from the working tree; returns obligations."""
+        return []
+
     def prepare(self, cases, impl_lines):
         """Called once with all implementation outputs before the verdicts."""
 
@@ -101,6 +111,8 @@ def run_check(prop: Prop, tier, seed, replay=None):
         okr, logr = C.build_harness(True)
         if not okr:
             obligations.append(("harness-build-release", False, logr[-600:]))
+
+    obligations.extend(prop.pre_build())
 
     # 2. translator
     ctx = {"tier": tier, "seed": seed}
@@ -186,6 +198,20 @@ def run_check(prop: Prop, tier, seed, replay=None):
                 if reason:
                     spec_fail.append((i, cases[i], "release:" + impl_r[i], model[i], s, reason))
 
+    scen = None
+    if ok and os.path.exists(C.driver_bin()):
+        scen = prop.scenarios(C.SplitMix64(seed).fork("scenarios"), tier)
+    if scen:
+        for k, v in scen.get("dist", {}).items():
+            dist[k] = dist.get(k, 0) + v
+        nontriv += scen.get("nontrivial", 0)
+        for (text, im, mo) in scen.get("corr_fail", []):
+            corr_fail.append((-1, Case("scenario", "scenario", text), im, mo, "-"))
+        for (key, text, detail) in scen.get("spec_fail", []):
+            c = Case("scenario", "scenario", text)
+            c.expect = key
+            spec_fail.append((-1, c, detail, "-", "-", detail))
+
     # 6. verdict
     findings = [f for f in C.load_known_findings() if f.get("property") == pid and f.get("kind", "finding") == "finding"]
     fkeys = {f["key"]: f for f in findings}
@@ -193,7 +219,7 @@ def run_check(prop: Prop, tier, seed, replay=None):
     out_lines = []
     unlisted = []
     for (i, c, im, m, s, reason) in spec_fail:
-        key = prop.finding_key(c, im, reason)
+        key = c.expect if c.line == "scenario" else prop.finding_key(c, im, reason)
         if key in fkeys:
             known_hits.append(key)
         else:
@@ -227,6 +253,7 @@ def run_check(prop: Prop, tier, seed, replay=None):
     wall = time.time() - t0
     samples = [{"input": (c.text if c.text is not None else c.line), "implementation": impl[i] if i < len(impl) else None}
                for i, c in list(enumerate(cases))[:: max(1, len(cases) // 6)][:6]]
+    samples += (scen or {}).get("samples", [])[:6]
     ev = {
         "property_id": pid,
         "tier": tier,
@@ -239,7 +266,7 @@ def run_check(prop: Prop, tier, seed, replay=None):
             "trusted_base": ["Lean 4.33 kernel", "axioms ⊆ {propext, Classical.choice, Quot.sound}",
                              "correspondence harness + Python comparator (vcheck/)", "Lean compiler for the driver"] + list(prop.trusted),
             "theorems": [{"name": o[0], "ok": o[1], "detail": o[2]} for o in obligations],
-            "evaluations": len(cases),
+            "evaluations": len(cases) + (scen or {}).get("evaluations", 0),
             "distinct_nontrivial": nontriv,
             "rule": "distinct protocol lines whose implementation output is not an error" ,
             "disagreements_checked": len(corr_fail),
